@@ -15,10 +15,20 @@ KeyOK(x) == x.keytype = "ec" => x.keycfg \in {"encSetter", "signSetter"}
 
 \* flows: authn = BuildAuthURLRedirect; authnPostBinding = BuildAuthURLFromDocument; authURL = BuildAuthURL (builds the
 \* request itself); authRedirect = AuthRedirect (HTTP 302 whose Location is that URL); logoutReq = BuildLogoutURLRedirect
-Redirect == { x \in [binding : {"redirect"}, flow : {"authn", "authnPostBinding", "authURL", "authRedirect", "logoutReq"}, relay : RelayClasses, idpurl : {"noquery", "query"},
-                     signReq : BOOLEAN, alg : Algs, keycfg : KeyCfgs, keytype : {"rsa", "ec"}] : KeyOK(x) }
-Post == [binding : {"post"}, flow : {"authn", "authnFromDoc", "logoutReq", "logoutResp"}, relay : RelayClasses, idpurl : {"noquery", "query"},
-         signReq : BOOLEAN, alg : {"unset"}, keycfg : {"encField"}, keytype : {"rsa"}]
+\* idpurl: what the configured IdP endpoint carries besides scheme, host and path (RFC 3986 query and/or fragment)
+IdpUrls == {"noquery", "query", "fragment", "queryfragment"}
+\* doc: the document that is transported. built = as the library builds it from plain settings; builtCR = built from
+\* settings whose strings contain CR / TAB / LF; caller = a document of the caller's own (XML declaration, comments
+\* outside the root element, default write settings, attributes of its own)
+DocKinds == {"built", "builtCR", "caller"}
+TakesDoc(x) == \/ x.binding = "redirect" /\ x.flow \in {"authn", "authnPostBinding", "logoutReq"}
+               \/ x.binding = "post" /\ x.flow # "authn"
+DocOK(x) == /\ (x.doc = "caller" => TakesDoc(x))
+            /\ (x.doc # "built" => (x.alg = "unset" /\ x.keycfg = "encField" /\ x.keytype = "rsa"))
+Redirect == { x \in [binding : {"redirect"}, flow : {"authn", "authnPostBinding", "authURL", "authRedirect", "logoutReq"}, relay : RelayClasses, idpurl : IdpUrls,
+                     signReq : BOOLEAN, alg : Algs, keycfg : KeyCfgs, keytype : {"rsa", "ec"}, doc : DocKinds] : KeyOK(x) /\ DocOK(x) }
+Post == { x \in [binding : {"post"}, flow : {"authn", "authnFromDoc", "logoutReq", "logoutResp"}, relay : RelayClasses, idpurl : IdpUrls,
+         signReq : BOOLEAN, alg : {"unset"}, keycfg : {"encField"}, keytype : {"rsa"}, doc : DocKinds] : DocOK(x) }
 Inputs == Redirect \cup Post
 Cfgs == [x : {0}]
 
